@@ -23,6 +23,8 @@
 
 #include <limits>
 
+#include "st_charbuffer.h"
+
 namespace _ST_PRIVATE
 {
     ST_NODISCARD
@@ -30,9 +32,11 @@ namespace _ST_PRIVATE
     {
         const char format_spec[] = { '%', format, 0 };
 
+        // Returns the full length of the rendering.  If that is not less
+        // than size, the output was truncated and the caller must retry
+        // with a buffer of at least (length + 1) bytes.
         int format_size = snprintf(buffer, size, format_spec, value);
         ST_ASSERT(format_size > 0, "Your libc doesn't support reporting format size");
-        ST_ASSERT(static_cast<size_t>(format_size) < size, "Format buffer too small");
 
         return static_cast<size_t>(format_size);
     }
@@ -103,10 +107,18 @@ namespace ST
                 throw ST::bad_format("Unsupported floating-point format specifier");
 
             m_size = _ST_PRIVATE::format_double(m_buffer, sizeof(m_buffer), value, format);
+            if (m_size >= sizeof(m_buffer)) {
+                // Too long for the in-object buffer (e.g. 1e100 with 'f')
+                m_heap.allocate(m_size);
+                (void)_ST_PRIVATE::format_double(m_heap.data(), m_size + 1, value, format);
+            }
         }
 
         ST_NODISCARD
-        const char *text() const noexcept { return m_buffer; }
+        const char *text() const noexcept
+        {
+            return (m_size < sizeof(m_buffer)) ? m_buffer : m_heap.data();
+        }
 
         ST_NODISCARD
         size_t size() const noexcept { return m_size; }
@@ -114,6 +126,7 @@ namespace ST
     private:
         char m_buffer[64];
         size_t m_size;
+        ST::char_buffer m_heap;
     };
 }
 
